@@ -113,6 +113,10 @@ pub enum Rec {
     Ev(u32, Ev),
     Start(LKey, u32),
     End(Box<ExecRec>),
+    /// a call of a node returned (fetch completed): (key, tid)
+    Used(LKey, u32),
+    /// a tracked struct was created (logged at creation time): (creator, record)
+    Made(LKey, Created),
     /// harness marker: history step index about to run, current revision counter
     Step(usize, u32),
 }
